@@ -39,6 +39,9 @@ type World struct {
 // Load type-checks every package of the module at dir (plus dependencies)
 // and builds SSA for all of them. Any load or type error is fatal: the
 // checker never decides a property on a partially analysed tree.
+// minPackages: a load that yields fewer packages is a failure (a static tool sees only what was parsed).
+var minPackages = 31
+
 func Load(dir string, extraEnv []string, overlay map[string][]byte) (*World, error) {
 	env := append(os.Environ(), "GOWORK=off", "GOFLAGS=-mod=mod", "GOPROXY=off", "GOSUMDB=off", "GOTOOLCHAIN=local")
 	env = append(env, extraEnv...)
@@ -64,8 +67,8 @@ func Load(dir string, extraEnv []string, overlay map[string][]byte) (*World, err
 	if nerr > 0 {
 		return nil, fmt.Errorf("%d package load/type errors", nerr)
 	}
-	if len(pkgs) < 31 {
-		return nil, fmt.Errorf("only %d packages loaded from %s, expected >= 31", len(pkgs), dir)
+	if len(pkgs) < minPackages {
+		return nil, fmt.Errorf("only %d packages loaded from %s, expected >= %d", len(pkgs), dir, minPackages)
 	}
 	prog, _ := ssautil.AllPackages(pkgs, ssa.InstantiateGenerics)
 	prog.Build()
